@@ -24,12 +24,39 @@ type Check struct {
 	ThoroughSec int // wall budget of the thorough tier
 	NeedsSched  bool
 	ProbeNames  []string // probes that a thorough run is expected to hit (warning if zero)
+	// Tenants builds the i-th independent instance (with its pre-drawn script) of the
+	// "interleaved" configuration (tenants.go); nil: the check has no such configuration.
+	Tenants func(c *core.Ctx, i int) tenant
+}
+
+// InterleavedConfig is the configuration in which independent instances are interleaved: at call
+// granularity in the plain build (one run in 16), at statement granularity in bin/check's second
+// pass with the instrumented build (every run of that pass).
+const InterleavedConfig = "interleaved"
+
+// AllConfigs lists the distinct configurations of the check.
+func (c *Check) AllConfigs() []string {
+	seen := map[string]bool{}
+	var out []string
+	for _, k := range c.Configs {
+		if !seen[k] {
+			seen[k] = true
+			out = append(out, k)
+		}
+	}
+	if c.Tenants != nil {
+		out = append(out, InterleavedConfig)
+	}
+	return out
 }
 
 // ConfigOf returns the configuration of run idx: a fixed pseudo-random assignment, so that the
 // mix of configurations is the same for every worker count and every worker sees every
 // configuration (idx % len would pin a worker to one configuration when len divides the stride).
 func (c *Check) ConfigOf(idx int64) string {
+	if c.Tenants != nil && core.Mix(uint64(idx)^0x7E4A47)%16 == 0 {
+		return InterleavedConfig
+	}
 	return c.Configs[int(core.Mix(uint64(idx)^0xC0FFEE1234)%uint64(len(c.Configs)))]
 }
 
@@ -59,6 +86,10 @@ func Execute(chk *Check, config, tier string, tape *core.Tape, st *core.Stats, v
 				harnessErr = fmt.Sprintf("harness panic: %v\n%s", r, debug.Stack())
 			}
 		}()
+		if config == InterleavedConfig && chk.Tenants != nil {
+			runTenants(c, chk.Tenants)
+			return
+		}
 		chk.Run(c)
 	}()
 	st.Violations += int64(len(c.Viol))
